@@ -34,6 +34,7 @@ def _worker(args):
     from pyvc.run import verify_functions
     try:
         scope = {} if tier == 'quick' else {'Task': 4, 'Inst': 4, 'Type': 3, 'Fut': 4}
+        scope = dict(scope, **PROPS[prop].get('scope', {}))
         r = verify_functions([fkey], prop=prop, repo=repo, scope=scope, interrupts=interrupts,
                              timeout_ms=30000 if tier == 'quick' else 300000)
         return fkey, r, None
